@@ -20,7 +20,7 @@ RULE = (
     "every choice point up to d deviating choice points (<=4 elements: all permutations; larger: reversal, adjacent transpositions, moves "
     "to front); state = (input, schedule), transition = one choice; any output that differs from the default schedule is a CANDIDATE. "
     "(2) conformance with real interpreters: a battery computing SHA-256 of every library and CLI output for a fixed input list is run in "
-    "fresh processes under each PYTHONHASHSEED of the list plus 'random' and twice in one process; a VIOLATION is reported only when two "
+    "fresh processes under each PYTHONHASHSEED of the list plus 'random', twice in one process, and once with the inputs processed in the opposite order; a VIOLATION is reported only when two "
     "real runs differ (replay = battery key + the two seeds). non-trivial = execution with at least one controlled iteration of >1 "
     "seed-dependent elements; distinct = (input, schedule)."
 )
@@ -44,7 +44,7 @@ def worker_init(tier):
 def BOUNDS(tier):
     q = tier == "quick"
     return dict(in_process_inputs="knotted members of M(N<=%d), D(K<=3); Mapping2D3D on conflicting external pair lists over a 6-nt host" % (7 if q else 8),
-                deviations=1 if q else 2, hash_seeds=SEEDS(tier), battery="2D: knotted M(<=6)+D(3); 3D/CLI: %d corpus files" % (10 if q else 19))
+                deviations=1 if q else 2, hash_seeds=SEEDS(tier), battery="2D: knotted M(<=6)+D(3); Mapping2D3D/adapter on 91 tied-conflict pair lists; 3D/CLI: %d corpus files" % (10 if q else 19))
 
 
 def SEEDS(tier):
@@ -162,13 +162,13 @@ def run_case(case):
 # ------------------------------------------------------------------------------------------------
 # conformance with real interpreters
 
-def _battery(seed, tier, only=None):
+def _battery(seed, tier, only=None, reverse=False):
     env = dict(os.environ)
     if seed is None:
         env.pop("PYTHONHASHSEED", None)
     else:
         env["PYTHONHASHSEED"] = seed
-    cmd = [sys.executable, "-m", "mc.battery", tier] + ([only] if only else [])
+    cmd = [sys.executable, "-m", "mc.battery", tier, only or "-"] + (["reverse"] if reverse else [])
     cp = subprocess.run(cmd, cwd=ROOT, env=env, capture_output=True, text=True)
     if cp.returncode != 0:
         raise RuntimeError("battery failed (seed %s): %s" % (seed, cp.stderr[-2000:]))
@@ -179,7 +179,9 @@ def post_phase(tier, seed):
     t0 = time.time()
     seeds = SEEDS(tier)
     with ThreadPoolExecutor(max_workers=16) as ex:
+        fut_rev = ex.submit(_battery, "0", tier, None, True)
         runs = list(ex.map(lambda s: _battery(s, tier), seeds))
+        rev = fut_rev.result()
     # repeated calls in one process: the battery module run twice in one interpreter
     code = ("import io,sys,json,contextlib\nfrom mc import battery\nres=[]\n"
             "for _ in range(2):\n b=io.StringIO()\n sys.argv=['battery',%r]\n with contextlib.redirect_stdout(b): battery.main()\n res.append(json.loads(b.getvalue()))\n"
@@ -201,6 +203,9 @@ def post_phase(tier, seed):
             kind = k.split(":")[-1]
             viols.append(viol("differs-across-hash-seeds:" + kind, "output %s differs between PYTHONHASHSEED=%s and %s" % (k, seeds[0], seeds[i]),
                               [vals[0], vals[i]], "byte-identical") | dict(case=dict(battery_key=k, seeds=[seeds[0], seeds[i]], tier=tier)))
+        if seeds[0] == "0" and rev.get(k) != runs[0].get(k):
+            viols.append(viol("depends-on-processing-order:" + k.split(":")[-1], "output %s differs when the same inputs are processed in the opposite order in one interpreter (same hash seed)" % k,
+                              [runs[0].get(k), rev.get(k)], "identical") | dict(case=dict(battery_key=k, seeds=["0", "0"], tier=tier, order=True), no_confirm=True))
         if rep[0].get(k) != rep[1].get(k):
             viols.append(viol("differs-in-process:" + k.split(":")[-1], "output %s differs between two calls in one process" % k, [rep[0].get(k), rep[1].get(k)], "identical")
                          | dict(case=dict(battery_key=k, seeds=["0", "0"], tier=tier), no_confirm=True))
@@ -208,7 +213,7 @@ def post_phase(tier, seed):
             viols.append(viol("differs-fresh-vs-repeated:" + k.split(":")[-1], "output %s differs between a fresh process and a repeated call" % k, None, None)
                          | dict(case=dict(battery_key=k, seeds=["0", "0"], tier=tier), no_confirm=True))
     exc = sorted(k for k, v in runs[0].items() if v.startswith(("EXC", "EXIT")))
-    return dict(evaluations=len(keys) * (len(seeds) + 2), distinct_nontrivial=len(keys), battery_keys=len(keys), seeds=seeds, real_runs=len(seeds) + 2,
+    return dict(evaluations=len(keys) * (len(seeds) + 2), distinct_nontrivial=len(keys), battery_keys=len(keys), seeds=seeds, real_runs=len(seeds) + 3,
                 differing_keys=differing, outputs_that_are_exceptions=exc[:40], wall_s=round(time.time() - t0, 1), violations=viols,
                 uncovered_set_displays=_ast_pass())
 
